@@ -35,7 +35,7 @@ type c14Op struct {
 	Claimed string
 	KeyUser string // "" = claimed
 	Pw      string
-	Chal    string // cur | prev | other | zeros
+	Chal    string // cur | prev | other | zeros | empty
 	Garbage string
 }
 
@@ -61,11 +61,11 @@ func c14Alphabet(full bool) []c14Op {
 		ops = append(ops, c14Op{Kind: "neg", Sess: s})
 	}
 	claimed := []string{"alice", "bob", "mallory"}
-	chals := []string{"cur", "other"}
+	chals := []string{"cur", "other", "empty"}
 	sessions := []int{0}
 	if full {
 		claimed = []string{"alice", "bob", "carol", "dave", "mallory", "ALICE"}
-		chals = []string{"cur", "prev", "other", "zeros"}
+		chals = []string{"cur", "prev", "other", "zeros", "empty"}
 		sessions = []int{0, 1}
 	}
 	type kp struct{ key, pw string }
@@ -178,6 +178,12 @@ func c14Run(hist []c14Op, rep *Report) (viol, detail string, trace []string) {
 				ch = sess[1-op.Sess].lastCur
 			case "zeros":
 				ch = &ntlmc.Challenge{ServerChallenge: make([]byte, 8)}
+			case "empty":
+				// a response computed over no challenge at all (what is left when a challenge is "cleared")
+				ch = &ntlmc.Challenge{ServerChallenge: []byte{}}
+				if s.lastCur != nil {
+					ch.TargetInfo = s.lastCur.TargetInfo
+				}
 			}
 			if ch == nil {
 				// no such challenge exists yet: answer a made-up one
@@ -217,7 +223,7 @@ func c14Run(hist []c14Op, rep *Report) (viol, detail string, trace []string) {
 }
 
 func c14(env *Env, rep *Report) {
-	rep.Rule = "every history up to depth d over an operation alphabet on two NTLM sessions: negotiate(s); authenticate(s, claimed user in {alice,bob,carol(empty password),dave(same password as alice),mallory(unknown),ALICE}, response keyed with {claimed user's configured password, a wrong password, the empty password, bob's password as bob, alice's password as alice}, challenge in {current of s, previous of s, current of the other session, zeros}); garbage(s, {not base64, empty, type 2, truncated type 3}); clock +61 s. " +
+	rep.Rule = "every history up to depth d over an operation alphabet on two NTLM sessions: negotiate(s); authenticate(s, claimed user in {alice,bob,carol(empty password),dave(same password as alice),mallory(unknown),ALICE}, response keyed with {claimed user's configured password, a wrong password, the empty password, bob's password as bob, alice's password as alice}, challenge in {current of s, previous of s, current of the other session, zeros, none (zero-length)}); garbage(s, {not base64, empty, type 2, truncated type 3}); clock +61 s. " +
 		"quick: reduced alphabet (39 ops) to depth 3, full alphabet (255 ops) to depth 2; thorough: full alphabet to depth 3, reduced to depth 4. Each history is one execution against a fresh real verifier (cmd/auth/ntlm) with messages built by an independent NTLMv2 implementation. " +
 		"Oracle (three-valued): authenticated without a response keyed by the claimed user's configured non-empty password over the session's latest challenge => violation; honest exchange (negotiate then matching authenticate, nothing in between on that session, no clock jump) refused => violation; success must return exactly the claimed configured name; everything else (e.g. a second correct attempt after a failed one) is unspecified. distinct_nontrivial = histories executed."
 	rep.Assumptions = append(rep.Assumptions, "user database {alice:pw1, bob:pw2, carol:\"\", dave:pw1}", "no merging of histories: the verifier's hidden state (cached keys, contexts) is exactly what the property is about")
